@@ -29,6 +29,9 @@ class Ob:
     # extra per-tier timeout override
     timeout_by_tier: Optional[Dict[str, float]] = None
     twin: bool = True
+    # custom decider (engine E2): callable() -> dict(status=holds|violated|inconclusive,
+    # counterexample=dict of args for fn, queries=int, solver_time_s=float, ...)
+    custom: Optional[Callable[[], Dict[str, Any]]] = None
 
     def parts(self, tier: str):
         if self.partition_by_tier and tier in self.partition_by_tier:
